@@ -136,7 +136,7 @@ impl Check for SlotCheck {
 
     fn budget(&self, tier: Tier) -> u64 {
         match tier {
-            Tier::Quick => 6_000,
+            Tier::Quick => 12_000,
             Tier::Thorough => 150_000,
         }
     }
